@@ -560,6 +560,8 @@ class ExprMixin:
         if isinstance(it, (list, tuple)):
             return list(it)
         if isinstance(it, range):
+            if len(it) > 4096:
+                raise Unsupported("UNSUPPORTED %s: a loop of %d iterations cannot be unrolled; it needs an invariant" % (w, len(it)))
             return list(it)
         if isinstance(it, dict):
             return list(it.keys())
